@@ -113,7 +113,7 @@ def plan(tier, seed):
         c.update(family='main', cseed=rnd.randrange(1 << 30))
         cases.append(c)
     kinds = ['misspelt_edge_paths', 'misspelt_output_paths', 'misspelt_input_paths', 'misspelt_update_paths', 'removed_variable',
-             'reserved_names', 'two_outputs', 'cyclic_node', 'missing_operator_value', 'population_param_missing_variable']
+             'reserved_names', 'two_outputs', 'cyclic_node', 'missing_operator_value', 'population_param_missing_variable', 'edge_values_missing_edge']
     opened = open_risks(PID)
     n = 24 if tier == 'quick' else 500
     for k in kinds:
@@ -430,6 +430,24 @@ def malformed_case(case, ctx, rnd, mech, res):
         c = CircuitTemplate(name='c', nodes={'n': NodeTemplate(name='nn', operators=ops)})
         mech[kind] = 1
         return expect_raise(lambda: c.get_run_func('f', step_size=dt, vectorize=rnd.random() < 0.5, verbose=False), "cyclic operator graph inside a node")
+    if kind == 'edge_values_missing_edge':
+        # edge_values (apply / get_run_func / run) addressed to an edge that does not exist
+        es = [e for e in ref.edges if not e.get('et')]
+        if not es:
+            return None
+        e0 = rnd.choice(es)
+        src, tgt = '/'.join(e0['src']), '/'.join(e0['tgt'])
+        which = rnd.choice(['source', 'target', 'swapped'])
+        key = (src + '_zz', tgt) if which == 'source' else (src, tgt + '_zz') if which == 'target' else (tgt, src)
+        if which == 'swapped' and any(e['src'] == e0['tgt'] and e['tgt'] == e0['src'] for e in ref.edges):
+            key = (src + '_zz', tgt)
+        res['sample']['mutation'] = list(key)
+        mech[kind] = 1
+
+        def f():
+            t, _ = build.build_python(spec)
+            return t.get_run_func('f', step_size=dt, vectorize=False, verbose=False, edge_values={key: {'weight': 3.5}})
+        return expect_warn_or_raise(f, f"edge_values addressed to a non-existent edge {key}")
     if kind == 'population_param_missing_variable':
         # a per-unit parameter of a PopulationTemplate addressed to a variable / operator that its node does not have
         from pyrates import OperatorTemplate, NodeTemplate, CircuitTemplate
